@@ -155,20 +155,29 @@ theorem snf_result_partial (fuel : Nat) (A : M3 Int) (o : Out) (hA : A.det ≠ 0
   simp only [Bool.and_eq_true, decide_eq_true_eq]
   exact ⟨⟨⟨⟨⟨⟨⟨⟨hinv, hd⟩, h0⟩, h1⟩, h2⟩, e1⟩, e2⟩, e3⟩, e4⟩
 
-/-- what is **not** proved by construction: that the diagonal of a finished run is positive with
-`d₀ ∣ d₁ ∣ d₂`.  It is decided on every case (`isSNF`, and independently on the implementation's `D`). -/
+/-- what is **not** proved by construction: that the diagonal of a finished run is positive.
+It is decided on every case (`isSNF`, and independently on the implementation's `D`). -/
 def FullStatement_snf_result : Prop :=
   ∀ (fuel : Nat) (A : M3 Int) (o : Out), A.det ≠ 0 → SNF.run fuel A = .ok o → o.finished = true →
-    o.D.isDiag = true ∧ 0 < o.D.a00 ∧ o.D.a00 ∣ o.D.a11 ∧ o.D.a11 ∣ o.D.a22
+    o.D.isDiag = true ∧ 0 < o.D.a00 ∧ 0 < o.D.a11 ∧ 0 < o.D.a22
 
 /-- the executable `isSNF` means what it says -/
 theorem isSNF_sound (A : M3 Int) (o : Out) (h : isSNF A o = true) :
     o.D = o.P * A * o.Q ∧ o.D.isDiag = true ∧ 0 < o.D.a00 ∧ 0 < o.D.a11 ∧ 0 < o.D.a22 ∧
-      o.D.a00 ∣ o.D.a11 ∧ o.D.a11 ∣ o.D.a22 ∧ o.P.det = 1 ∧ (o.Q.det = 1 ∨ o.Q.det = -1) := by
+      o.P.det = 1 ∧ (o.Q.det = 1 ∨ o.Q.det = -1) := by
   unfold isSNF at h
   simp only [Bool.and_eq_true, decide_eq_true_eq] at h
-  obtain ⟨⟨⟨⟨⟨⟨⟨⟨h1, h2⟩, h3⟩, h4⟩, h5⟩, h6⟩, h7⟩, h8⟩, h9⟩ := h
-  exact ⟨h1, h2, h3, h4, h5, Int.dvd_of_emod_eq_zero h6, Int.dvd_of_emod_eq_zero h7, h8, h9⟩
+  obtain ⟨⟨⟨⟨⟨⟨h1, h2⟩, h3⟩, h4⟩, h5⟩, h8⟩, h9⟩ := h
+  exact ⟨h1, h2, h3, h4, h5, h8, h9⟩
+
+/-- the textbook divisibility chain `d₀ ∣ d₁ ∣ d₂` is **not** a property of this algorithm (its docstring
+says so: "the diagonal elements don't follow the rule"): model and implementation agree on
+`D = diag(2, 1, 212)` for this matrix (found by the thorough tier).  The supercell construction
+needs only a positive diagonal `D` and unimodular `P`, `Q`. -/
+theorem snf_divisibility_chain_counterexample :
+    ∃ (A : M3 Int) (o : Out), SNF.run 64 A = .ok o ∧ o.finished = true ∧ isSNF A o = true ∧ ¬ (o.D.a00 ∣ o.D.a11) := by
+  refine ⟨⟨-6,-4,-8, 0,4,-8, -4,4,-1⟩, ⟨⟨2,0,0, 0,1,0, 0,0,212⟩, ⟨-1,0,2, 2,18,-3, 8,73,-12⟩,
+    ⟨-1,-21,1098, 0,-3,157, 0,-1,52⟩, true, true, true, 1⟩, by decide, rfl, by decide, by decide⟩
 
 example : (SNF.run 64 ⟨2,1,0, 0,2,0, 1,0,2⟩).toOption.map (fun o => (o.D, o.finished, o.xok, o.finOk)) =
     some (⟨1,0,0, 0,1,0, 0,0,8⟩, true, true, true) := by decide
@@ -225,6 +234,25 @@ theorem classic_eq_snf_as_sets (S : M3 Int) (c c' : SnfCert) (pts pts' : List (V
     (∀ p ∈ pts, ∃! p', p' ∈ pts' ∧ CongS S p p') ∧ (∀ p' ∈ pts', ∃! p, p ∈ pts ∧ CongS S p' p) :=
   ⟨fun p _ => complete_residue_system_sound S c' pts' h' hS p,
    fun p' _ => complete_residue_system_sound S c pts h hS p'⟩
+
+/-- **frame_complete_partial** (classic route): under the decidable condition `frameComplete`, which
+the check evaluates per matrix, the lattice points of the surrounding frame meet every class of
+`ℤ³/Sℤ³` — so trimming them leaves a complete irredundant system. -/
+theorem frame_complete_partial (S : M3 Int) (c : SnfCert) (hS : S.det ≠ 0) (h : frameComplete S c = true) (x : V3 Int) :
+    ∃ p, p ∈ latticePoints (surroundingFrame S) ∧ CongS S x p := by
+  unfold frameComplete at h
+  simp only [Bool.and_eq_true, List.all_eq_true, List.any_eq_true] at h
+  obtain ⟨hc, hall⟩ := h
+  obtain ⟨m, ⟨hm, hxm⟩, _⟩ := reps_of_cert S c (SnfCert.ok_good S c hc) x
+  obtain ⟨p, hp, hpm⟩ := hall m hm
+  rw [eqModS_iff S hS] at hpm
+  exact ⟨p, hp, hxm.trans' hpm.symm'⟩
+
+/-- the unconditional statement (every integer matrix with positive determinant) is not a theorem here;
+`frameComplete` is evaluated for every matrix the check uses (exhaustively for entries in {-1,0,1},
+det 1..4 in quick; entries in {-1,0,1,2}, det 1..8 in thorough). -/
+def FullStatement_frame : Prop :=
+  ∀ (S : M3 Int), 0 < S.det → ∀ x : V3 Int, ∃ p, p ∈ latticePoints (surroundingFrame S) ∧ CongS S x p
 
 example : isCompleteResidueSystem ⟨1,1,0, 0,1,0, 0,0,2⟩
     ⟨⟨1,0,0, 0,1,0, 0,0,2⟩, ⟨1,0,0, -1,1,0, 0,0,1⟩, ⟨1,0,0, 1,1,0, 0,0,1⟩, ⟨0,-1,0, 1,1,0, 0,0,1⟩, ⟨1,1,0, -1,0,0, 0,0,1⟩⟩
@@ -361,12 +389,14 @@ end PhononModel.C04
 #print axioms PhononModel.C04.snf_diagonal
 #print axioms PhononModel.C04.snf_result_partial
 #print axioms PhononModel.C04.isSNF_sound
+#print axioms PhononModel.C04.snf_divisibility_chain_counterexample
 #print axioms PhononModel.C04.snf_rejects_zero_first_column
 #print axioms PhononModel.C04.snf_points_are_reps
 #print axioms PhononModel.C04.snf_route_points_are_reps
 #print axioms PhononModel.C04.snf_points_count
 #print axioms PhononModel.C04.complete_residue_system_sound
 #print axioms PhononModel.C04.classic_eq_snf_as_sets
+#print axioms PhononModel.C04.frame_complete_partial
 #print axioms PhononModel.C04.snf_route_lattice_as_coded_counterexample
 #print axioms PhononModel.C04.trim_rejects_nonTiling
 #print axioms PhononModel.C04.supercell_built_only_if_tiling
